@@ -6,29 +6,35 @@
        way most recent (re-entering the list when it had been evicted), an
        eviction takes the least recently visited way out of the list;
      * key map and recency list are independent of each other;
-     * a JSON round trip changes nothing.
+     * a JSON round trip changes nothing, whatever object the encoding is decoded
+       into: a zero Set (`jsonrt`), the SAME live set after it kept operating
+       (`save` ... `rollback`), or ANOTHER set that has already been used
+       (`load_into_used`).  With Snapshots = TRUE the saved recency order and
+       bindings are part of the state (`snap`, one outstanding snapshot).
    One action per exported operation; `last` carries (op, arg, expected result)
    for replay on the real object.  `clock`/`stamp` are auxiliary (outside the
    VIEW): the logical time of the last visit of every way, used to state "least
    recently visited" independently of the list representation.               *)
 EXTENDS Integers, Sequences, FiniteSets, TLC, Json
-CONSTANTS MinWays, MaxWays, NKeys
-VARIABLES n, rec, bind, last, clock, stamp
-vars == <<n, rec, bind, last, clock, stamp>>
+CONSTANTS MinWays, MaxWays, NKeys, Snapshots
+VARIABLES n, rec, bind, snap, last, clock, stamp
+vars == <<n, rec, bind, snap, last, clock, stamp>>
 
 Ways  == 0..(n - 1)
 Keys  == 1..NKeys
 NoWay == -1          \* key not bound
 NoKey == 0           \* "no previous key" argument of a rebind (the empty string)
 
-St  == [n |-> n, rec |-> rec, bind |-> bind]
-St2 == [n |-> n', rec |-> rec', bind |-> bind']
+NoSnap == [has |-> FALSE, rec |-> <<>>, bind |-> [k \in Keys |-> NoWay]]
+St  == IF Snapshots THEN [n |-> n, rec |-> rec, bind |-> bind, snap |-> snap] ELSE [n |-> n, rec |-> rec, bind |-> bind]
+St2 == IF Snapshots THEN [n |-> n', rec |-> rec', bind |-> bind', snap |-> snap'] ELSE [n |-> n', rec |-> rec', bind |-> bind']
 
 Range(s) == {s[i] : i \in DOMAIN s}
 
 Init == /\ n \in MinWays..MaxWays
         /\ rec = [i \in 1..n |-> i - 1]           \* all ways listed, way 0 evicted first
         /\ bind = [k \in Keys |-> NoWay]
+        /\ snap = NoSnap
         /\ clock = n
         /\ stamp = [w \in 0..(n - 1) |-> w + 1]
         /\ last = [op |-> "new", arg |-> n, res |-> 0]
@@ -68,13 +74,31 @@ Visit(w) == /\ rec' = Append(SelectSeq(rec, LAMBDA x : x # w), w)
 (* MarshalJSON, then UnmarshalJSON into a zero Set that replaces the object *)
 JsonRT == /\ UNCHANGED n /\ SameRec /\ SameBind /\ Op("jsonrt", 0, "ok")
 
-Next == \/ Evict \/ JsonRT
-        \/ \E k \in Keys : Lookup(k) \/ Remove(k)
-        \/ \E w \in Ways : Visit(w)
-        \/ \E w \in Ways, old \in Keys \cup {NoKey}, new \in Keys : Rebind(w, old, new)
+(* MarshalJSON: the encoding stays available (one outstanding snapshot) *)
+Save == /\ Snapshots /\ UNCHANGED n /\ SameRec /\ SameBind
+        /\ snap' = [has |-> TRUE, rec |-> rec, bind |-> bind] /\ Op("save", 0, "ok")
+(* the set keeps operating after the save; then UnmarshalJSON of the snapshot into the SAME live object.
+   The auxiliary stamps are re-issued in list order (they only serve the properties below). *)
+Restored == /\ Snapshots /\ snap.has /\ UNCHANGED <<n, snap>>
+            /\ rec' = snap.rec /\ bind' = snap.bind
+            /\ clock' = clock + Len(snap.rec)
+            /\ stamp' = [w \in DOMAIN stamp |->
+                           IF \E i \in DOMAIN snap.rec : snap.rec[i] = w
+                           THEN clock + (CHOOSE i \in DOMAIN snap.rec : snap.rec[i] = w) ELSE stamp[w]]
+Rollback == Restored /\ Op("rollback", 0, "ok")
+(* UnmarshalJSON of the snapshot into ANOTHER set object (same way count) that has been visited,
+   evicted from and bound differently; that object replaces the set *)
+LoadIntoUsed == Restored /\ Op("load_into_used", 0, "ok")
+
+Next == \/ /\ UNCHANGED snap
+           /\ \/ Evict \/ JsonRT
+              \/ \E k \in Keys : Lookup(k) \/ Remove(k)
+              \/ \E w \in Ways : Visit(w)
+              \/ \E w \in Ways, old \in Keys \cup {NoKey}, new \in Keys : Rebind(w, old, new)
+        \/ Save \/ Rollback \/ LoadIntoUsed
 Spec == Init /\ [][Next]_vars
 
-View == <<n, rec, bind>>
+View == <<n, rec, bind, snap>>
 Emit == PrintT(<<"EDGE", ToJson([s |-> St, a |-> last', t |-> St2])>>)
 
 ---------------------------------------------------------------------------
@@ -82,6 +106,9 @@ Emit == PrintT(<<"EDGE", ToJson([s |-> St, a |-> last', t |-> St2])>>)
 TypeOK == /\ \A i \in DOMAIN rec : rec[i] \in Ways
           /\ Cardinality(Range(rec)) = Len(rec)             \* a way is listed at most once
           /\ bind \in [Keys -> Ways \cup {NoWay}]
+          /\ snap.has \in BOOLEAN /\ (Snapshots \/ snap = NoSnap)
+          /\ \A i \in DOMAIN snap.rec : snap.rec[i] \in Ways
+          /\ snap.bind \in [Keys -> Ways \cup {NoWay}]
 
 (* the list is ordered by the time of the last visit *)
 LeastRecentFirst == \A i, j \in DOMAIN rec : i < j => stamp[rec[i]] < stamp[rec[j]]
@@ -99,8 +126,13 @@ VisitIsMRU == [][last'.op = "visit" =>
                    /\ SelectSeq(rec', LAMBDA x : x # last'.arg) = SelectSeq(rec, LAMBDA x : x # last'.arg)]_vars
 
 (* recency and bindings do not influence each other; lookups and round trips change nothing *)
-Independent == [][/\ last'.op \in {"lookup", "remove", "rebind", "jsonrt"} => rec' = rec
-                  /\ last'.op \in {"lookup", "evict", "visit", "jsonrt"} => bind' = bind
+Independent == [][/\ last'.op \in {"lookup", "remove", "rebind", "jsonrt", "save"} => rec' = rec
+                  /\ last'.op \in {"lookup", "evict", "visit", "jsonrt", "save"} => bind' = bind
                   /\ last'.op = "rebind" => bind'[last'.arg.new] = last'.arg.way
                   /\ last'.op = "remove" => bind'[last'.arg] = NoWay]_vars
+
+(* a restore makes recency order and bindings equal to the saved ones; only a save changes the snapshot *)
+RestoreExact == [][/\ last'.op \in {"rollback", "load_into_used"} =>
+                        (snap.has /\ rec' = snap.rec /\ bind' = snap.bind /\ snap' = snap)
+                   /\ snap' # snap => (last'.op = "save" /\ snap' = [has |-> TRUE, rec |-> rec, bind |-> bind])]_vars
 =======================================================================
